@@ -435,6 +435,10 @@ type fedInfo struct {
 }
 
 func fedPaths(m *Module, f *ssa.Function, idx int) map[string][]fedInfo {
+	return fedPathsD(m, f, idx, 0)
+}
+
+func fedPathsD(m *Module, f *ssa.Function, idx, depth int) map[string][]fedInfo {
 	out := map[string][]fedInfo{}
 	param := f.Params[idx]
 	mf := newMergeFn(m, f)
@@ -533,6 +537,42 @@ func fedPaths(m *Module, f *ssa.Function, idx int) map[string][]fedInfo {
 				args := x.Call.Args
 				if g != nil {
 					args = args[1:]
+				}
+				// a helper of the wrapper generator that is handed a part of the adjustment: what the
+				// helper feeds, seen from here, below that part and under the call's own controls
+				if g != nil && recvNamed(g).Obj().Pkg().Path() == pkgGen && len(g.Blocks) > 0 && depth < 3 && g != f {
+					for i, a := range args {
+						pa := m.ap(a)
+						if pa.Root != ssa.Value(param) || len(pa.Wrap) > 0 {
+							continue
+						}
+						var here []string
+						for _, cd := range controls(x.Block()) {
+							for _, s := range mf.condSubjects(cd) {
+								if s.Root == ssa.Value(param) {
+									here = append(here, s.PathString())
+								}
+							}
+						}
+						join := func(sub string) string {
+							switch {
+							case pa.PathString() == "":
+								return sub
+							case sub == "":
+								return pa.PathString()
+							}
+							return pa.PathString() + "." + sub
+						}
+						for sub, fis := range fedPathsD(m, g, i+1, depth+1) {
+							for _, fi := range fis {
+								nfi := fedInfo{at: x, ctrls: append([]string{}, here...)}
+								for _, cp := range fi.ctrls {
+									nfi.ctrls = append(nfi.ctrls, join(cp))
+								}
+								out[join(sub)] = append(out[join(sub)], nfi)
+							}
+						}
+					}
 				}
 				for _, a := range args {
 					record(a, x)
